@@ -115,6 +115,10 @@ func (pf *ProofMod) Verify(Session []byte, N *big.Int) bool {
 	if pf == nil || !pf.ValidateBasic() {
 		return false
 	}
+	// the modulus must be an odd integer > 1 (big.Jacobi panics on even moduli; nothing can be proven about them anyway)
+	if N == nil || N.Cmp(one) != 1 || N.Bit(0) == 0 {
+		return false
+	}
 	// TODO: add basic properties checker
 	if isQuadraticResidue(pf.W, N) {
 		return false
